@@ -147,6 +147,7 @@ type World struct {
 	tagged           bool // tagColumns() has put the identity key on the columns
 	pendingViolation *Violation
 	tcSizes          map[string]int // printed size of table+columns state per key set
+	liveProbe        int
 
 	// callbacks (C13)
 	regs         []*SimCallback
@@ -157,6 +158,7 @@ type World struct {
 	inHeaders    bool
 	errSink      *mRow // detached row currently receiving callback errors, or nil = table
 	pendingRow   *mRow // row being created inside the table by the current step
+	inAttach     bool  // an AddRow call is in progress (row position known only by pointer)
 	itemByVal    map[interface{}]int
 
 	Probes map[string]int
